@@ -24,6 +24,8 @@ type SNode struct {
 	EnumRef  string
 	AllOf    []string
 	Note     string
+	// OrAlts is an explicit or-rule on a scalar: "@type" or the name of a built-in type ("integer", "string"…).
+	OrAlts []string
 }
 
 type SProp struct {
